@@ -198,7 +198,7 @@ func runC11(tier string) int {
 	r.Assume("command config: fixed var_name, var_name_arg_position 0 and 1, a command without argument list, a constant argument, an inline text argument",
 		"the preamble is an observable command whose text is the statement rendering 'name arg, arg' (C10 checks that rendering rule separately)")
 	return r.Finish(r.Get("evaluations"), r.Get("nontrivial"),
-		"C02's expression trees with 1-2 leaves replaced by AutoVar leaves (7 command kinds incl. arguments containing '%' x 9 comparison forms, rotated for k>=3) x decorations x 13 condition positions x optimize on/off, plus AutoVar switch operands in 4 contexts, plus AutoVar switch / if / while / do...while statements inside poryswitch cases (colon and brace form, selected directly and through '_'); lockstep exploration (the preamble command, each operand read and each body command are observable events); non-trivial = >= 2 leaves or a switch")
+		"C02's expression trees with 1-2 leaves replaced by AutoVar leaves (7 command kinds incl. arguments containing '%' x 9 comparison forms, rotated for k>=3) x decorations x 13 condition positions x optimize on/off, plus AutoVar switch operands in 4 contexts, plus AutoVar switch / if / while / do...while statements inside poryswitch cases (colon and brace form, selected directly and through '_'); the programs with <= 2 leaves, the switch programs and the poryswitch-wrapped ones also compiled with line markers on, without and with an input path; lockstep exploration (the preamble command, each operand read and each body command are observable events); non-trivial = >= 2 leaves or a switch")
 }
 
 func c11Eval(r *harness.Run, sc *model.Script, copts *comp.Opts, desc string, nontrivial bool) {
@@ -234,6 +234,27 @@ func c11EvalSrc(r *harness.Run, sc *model.Script, text string, copts *comp.Opts,
 			})
 		} else if r.WantSample() && nontrivial {
 			r.Sample(map[string]interface{}{"desc": desc, "optimize": opt, "product_states": st.States, "product_transitions": st.Transitions})
+		}
+		// the same program under the other line-marker settings (markers on without an input path - the CLI default when
+		// reading standard input - and markers on with a path): explored again whenever the marker-free text differs
+		if v == nil && (strings.HasPrefix(desc, "k=1 ") || strings.HasPrefix(desc, "k=2 ") || !strings.HasPrefix(desc, "k=")) {
+			for _, lm := range []comp.Opts{{LineMarkers: true}, {LineMarkers: true, Path: "f.pory"}} {
+				o := *copts
+				o.Optimize, o.LineMarkers, o.Path = opt, lm.LineMarkers, lm.Path
+				res := comp.Compile(src, o)
+				if res.Err == nil && res.Panic == "" && dropMarkerLines(res.Out) == out {
+					r.Add("line_marker_settings_identical", 1)
+					continue
+				}
+				r.Add("line_marker_settings_explored", 1)
+				ok2, rej2, _, v2, out2 := checkScripts(scripts, src, opt, machine.Lockstep, &o)
+				if !ok2 {
+					r.Report(harness.Violation{Sig: "C11:rejected-with-markers:" + firstWords(rej2, 6), Summary: fmt.Sprintf("rejected with line markers (path %q): %s\n  source: %q", lm.Path, rej2, src), Replay: map[string]interface{}{"source": src, "error": rej2, "line_markers": true, "path": lm.Path}})
+				} else if v2 != nil {
+					r.Report(harness.Violation{Sig: violationSig("C11", v2) + "+linemarkers", Summary: fmt.Sprintf("%s optimize=%v line markers on, path %q: %s\n  source: %q", desc, opt, lm.Path, v2, src),
+						Replay: map[string]interface{}{"desc": desc, "source": src, "optimize": opt, "line_markers": true, "path": lm.Path, "reference_next_event": v2.A.String(), "emitted_next_event": v2.B.String(), "observable_prefix": v2.Trace, "emitted_assembly": out2}})
+				}
+			}
 		}
 	}
 }
